@@ -68,15 +68,26 @@ Fixpoint auto_hist (w : world) (ops : list op) : list hstep :=
   end.
 
 (* ---- refutations: outside the guard the faithful model violates S --------------------------------- *)
-(* (1) classChanged visits the subclasses in map order: a (=0), b (=1) under a, c (=2) under b, z (=3);
-   a is redefined with the superclass z; when c is merged before b it copies b's stale list *)
+(* (1) REPAIRED (repo_fixes/C12-2, finding C12-redefinition-order-of-subclasses).  a (=0), b (=1) under a,
+   c (=2) under b, z (=3); a is redefined with the superclass z.  The unchanged classChanged merged the
+   inheriting classes in map order: when c was merged before b it copied b's stale list.  Now both map orders
+   are inside the guard and give c the specification's list. *)
 Definition h_chain : list hstep := [dc 0 [] [] [0] []; dc 1 [0] [] [0; 1] []; dc 2 [1] [] [0; 1; 2] []; dc 3 [] [] [0; 1; 2; 3] []].
-Definition w_bad_order : list hstep := h_chain ++ [dc 0 [3] [] [4; 1; 2; 3] [2; 1]].
-Definition w_good_order : list hstep := h_chain ++ [dc 0 [3] [] [4; 1; 2; 3] [1; 2]].
-Theorem classchanged_order_refuted :
-  guard_ops w0 h_chain = true /\ guard_ops w0 w_bad_order = false /\
-  prec_of (run w0 w_bad_order) 2 = [2; 1; 0; SO; TT] /\ spec_prec (run w0 w_bad_order) 2 = [2; 1; 0; 3; SO; TT] /\
-  guard_ops w0 w_good_order = true /\ prec_of (run w0 w_good_order) 2 = [2; 1; 0; 3; SO; TT].
+Definition w_order_cb : list hstep := h_chain ++ [dc 0 [3] [] [4; 1; 2; 3] [2; 1]].
+Definition w_order_bc : list hstep := h_chain ++ [dc 0 [3] [] [4; 1; 2; 3] [1; 2]].
+Theorem classchanged_any_order_example :
+  guard_ops w0 w_order_cb = true /\ guard_ops w0 w_order_bc = true /\
+  prec_of (run w0 w_order_cb) 2 = [2; 1; 0; 3; SO; TT] /\ prec_of (run w0 w_order_bc) 2 = [2; 1; 0; 3; SO; TT] /\
+  spec_prec (run w0 w_order_cb) 2 = [2; 1; 0; 3; SO; TT].
+Proof. vm_compute. repeat split. Qed.
+(* the unchanged code, for the record: merging in the order given *)
+Definition class_changed_orig (w : world) (n : nat) (corder : list nat) : world :=
+  fold_left (fun w id => if inherits w id n then fst (merge w id) else w) corder w.
+Theorem original_classchanged_order_refuted :
+  let pre := defclass_pre (run w0 h_chain) 0 [3] [] [4; 1; 2; 3] in
+  prec_of (class_changed_orig pre 0 [2; 1]) 2 = [2; 1; 0; SO; TT] /\
+  prec_of (class_changed_orig pre 0 [1; 2]) 2 = [2; 1; 0; 3; SO; TT] /\
+  prec_of (class_changed pre 0 [2; 1]) 2 = [2; 1; 0; 3; SO; TT].
 Proof. vm_compute. repeat split. Qed.
 
 (* (2) a redefinition whose new superclass is not defined yet: the subclass keeps its old precedence list
